@@ -672,7 +672,7 @@ def _adaptor(kind, with_fn=False, with_n=False):
                 out[(("f", "@f"),) + pth] = l
         if with_n:
             n = tree_leaf(call.args[1])
-            if n[0] != "int":
+            if n[0] not in ("int", "term"):
                 return NotImplemented
             out[(("f", "@left"),)] = n
         return call.ret(out)
@@ -791,10 +791,99 @@ def _fold_of_unknown_source(call):
     return res
 
 
+def _fold_copy_summary(call):
+    """`dst.iter_mut().zip(src.iter())[.take(n)].fold(init, |c, (o, i)| { *o = *i; c + 1 })` over slices of unknown length.
+
+    One iteration is executed on a symbolic position K; if all it does is store src[K] into dst[K] and add one to the
+    accumulator, the whole fold is the prefix copy dst[..m] <- src[..m] with m = min(|dst|, |src|[, n]) and yields init + m
+    (std: zip stops at the shorter side, take at n).  The copy is reported as the event a `copy_from_slice` of those two
+    prefixes reports, so the rules about bulk copies apply unchanged.  Anything else: NotImplemented."""
+    interp, st = call.interp, call.st
+    it = call.args[0]
+    n = None
+    z = it
+    if _kind(z) == "take":
+        n = z.get((("f", "@left"),))
+        z = subtree(z, (("f", "@inner"),))
+    if _kind(z) != "zip":
+        return NotImplemented
+    a, b = subtree(z, (("f", "@a"),)), subtree(z, (("f", "@b"),))
+    if _kind(a) != "slice" or _kind(b) != "slice" or a.get((("f", "@mut"),)) != ("int", 1) or b.get((("f", "@mut"),)) == ("int", 1):
+        return NotImplemented
+    if a.get((("f", "@idx"),), ("int", 0)) != ("int", 0) or b.get((("f", "@idx"),), ("int", 0)) != ("int", 0):
+        return NotImplemented
+    sa, sb = a[(("f", "@slice"),)], b[(("f", "@slice"),)]
+    fl = tree_leaf(call.args[2])
+    if sa[0] != "ref" or sb[0] != "ref" or fl[0] != "closure" or interp.prog.bodies.get(fl[1]) is None:
+        return NotImplemented
+    la, lb = interp.len_of(st, sa), interp.len_of(st, sb)
+    if la[0] not in ("int", "term") or lb[0] not in ("int", "term"):
+        return NotImplemented
+    if la[0] == "int" and lb[0] == "int" and (n is None or n[0] == "int"):
+        return NotImplemented          # concrete: the ordinary protocol iterates it
+    K = ("@k", call.fr.body.id, call.fr.bb)
+    ea = (sa[1], sa[2] + (("f", "[%r]" % (K,)),))
+    eb = (sb[1], sb[2] + (("f", "[%r]" % (K,)),))
+    src_val = st.read_leaf(eb[0], eb[1])
+    acc = ("term", ("@acc", call.fr.body.id, call.fr.bb))
+    # a count that starts at 0 is below the slice length (<= isize::MAX) while an element is still to come
+    if tree_leaf(call.args[1]) == ("int", 0):
+        st.facts[acc[1]] = ("iv", ((0, (1 << 63) - 2),))
+    snap = {r: dict(d) for r, d in st.mem.items()}
+    nev = len(st.events)
+    item = _tuple(leaf_tree(("ref", ea[0], ea[1])), leaf_tree(("ref", eb[0], eb[1])))
+    f = _store_fn(call, st, call.args[2], "fn")
+    init = tree_leaf(call.args[1])
+
+    def mn(x, y):
+        if x[0] == "int" and y[0] == "int":
+            return ("int", min(x[1], y[1]))
+        p_, q_ = sorted([x, y], key=repr)
+        return ("term", ("min", p_, q_))
+
+    def got(s2, ret):
+        r = tree_leaf(ret)
+        changed = []
+        for root, d in s2.mem.items():
+            if root not in snap:
+                if root[0] not in ("L", "T", "E", "SL"):
+                    changed.append((root, None))
+                continue
+            for pth, l in d.items():
+                if snap[root].get(pth) != l and not (root[0] == "T"):
+                    changed.append((root, pth))
+        ok = (r == interp.arith(s2, "Add", acc, ("int", 1), "usize") and len(s2.events) == nev
+              and changed == [(ea[0], ea[1])] and s2.mem[ea[0]][ea[1]] == src_val and src_val[0] == "term")
+        # undo the symbolic iteration
+        if ea[1] in snap.get(ea[0], {}):
+            s2.mem[ea[0]][ea[1]] = snap[ea[0]][ea[1]]
+        else:
+            s2.mem.get(ea[0], {}).pop(ea[1], None)
+        if not ok:
+            interp.havoc_at(s2, sa[1], sa[2], TOP)
+            return _ret_on(call, s2, leaf_tree(TOP))
+        m = mn(la, lb)
+        if n is not None:
+            m = mn(m, n)
+        c2 = _rebind(call, s2)
+        ka, kb = c2.arg_key(leaf_tree(sa)), c2.arg_key(leaf_tree(sb))
+        rng = ("agg", (((("f", "end"),), m),))
+        dt = {(): ("term", ("app", "slice", ka, rng)) if ka != TOP else TOP, (("$len",),): m}
+        stt = {(): ("term", ("app", "slice", kb, rng)) if kb != TOP else TOP, (("$len",),): m}
+        s2.events.append(("copy_from_slice", dt, stt))
+        res = m if init == ("int", 0) else interp.arith(s2, "Add", init, m, "usize")
+        return _ret_on(call, s2, leaf_tree(res))
+    return _call_at(call, st, f, [leaf_tree(acc), item], got)
+
+
 def _consumer_axiom(names, doc, run):
     def ax(call):
         if len(call.args) >= 2 and tree_leaf(call.args[-1])[0] not in ("closure", "fn") and names[0] not in ("Iterator::count", "Iterator::last", "Iterator::nth"):
             return NotImplemented
+        if names[0] == "Iterator::fold":
+            r = _fold_copy_summary(call)
+            if r is not NotImplemented:
+                return r
         addr = _iter_at(call, call.st, call.args[0], "it")
         if addr is None:
             if names[0] == "Iterator::fold":
@@ -1062,3 +1151,23 @@ for _a, _b in (("&usize", "usize"), ("usize", "&usize"), ("&usize", "&usize"), (
         _n = "<%s as %s<%s>>::%s" % (_a, _tr, _b, _tr.lower())
         AXIOMS[_n] = _ref_arith(_op)
         AXIOM_DOC[_n] = "integer %s through references; overflow is an obligation" % _tr.lower()
+
+
+@axiom("<impl [T]>::iter_mut", doc="mutable slice iterator: remembers which slice it walks")
+def ax_slice_iter_mut(call):
+    l = tree_leaf(call.args[0])
+    key = call.arg_key(call.args[0])
+    out = {(): ("term", ("app", "<impl [T]>::iter_mut", key)) if key != TOP else TOP, (("f", "@mut"),): ("int", 1)}
+    if l[0] == "ref":
+        out[(("f", "@slice"),)] = l
+    return call.ret(out)
+
+
+_ITER_TYPES = ("Filter<I, P>", "Map<I, F>", "TakeWhile<I, P>", "SkipWhile<I, P>", "Inspect<I, F>", "FilterMap<I, F>", "Enumerate<I>",
+               "Copied<I>", "Cloned<I>", "Take<I>", "Skip<I>", "Zip<A, B>", "Chain<A, B>", "IntoIter<T, N>", "Iter<'a, T>", "IterMut<'a, T>")
+for _c in ("for_each", "fold", "all", "any", "find", "position", "find_map", "count", "last", "try_for_each"):
+    for _ty in _ITER_TYPES:
+        _n = "<%s as Iterator>::%s" % (_ty, _c)
+        if _n not in AXIOMS:          # specialised impls of the default methods mean the same
+            AXIOMS[_n] = AXIOMS["Iterator::" + _c]
+            AXIOM_DOC[_n] = AXIOM_DOC["Iterator::" + _c]
